@@ -40,6 +40,7 @@ THEOREMS = [
     "simpleagg_eq_hashagg_nokeys_first_unsound",
     "simpleagg_is_chunkpath", "sortagg_nokeys_is_rowpath",
     "hashagg_groupwise", "hashagg_eq_spec_partial", "sortagg_one_run", "hashagg_eq_sortagg_one_run",
+    "saLoop_runs", "sortagg_runs", "hashagg_eq_sortagg", "hashagg_eq_sortagg_unsorted_unsound",
 ]
 
 # witnesses of the `_unsound` theorems, replayed on the implementation by the corpus file
